@@ -168,6 +168,11 @@ def ring_rules(ctx):
         ctx.check(not probs and n == 2, "R13-ring", f.key, f, "%s: %s ? %s : %s" % (nm, fmt(guard), fmt(wrapv), fmt(stepv)), "; ".join(sorted(set(probs))[:2]) or "%d paths" % n)
 
 
+def subterms_(t):
+    from ..terms import subterms
+    return subterms(t)
+
+
 def swap_chain_rules(ctx, ii):
     """R13-swap-chain: in the shifting loop every slot's (continuation bit, remainder, used flag) is read before the slot is
     overwritten with the carried triple, the carried triple becomes the one just read, and the loop runs while the carried slot was used"""
@@ -246,6 +251,43 @@ def swap_chain_rules(ctx, ii):
                 alts = set(map(repr, u[1])) if u[0] == "phi" else {repr(u)}
                 if alts != {repr(const(True)), repr(shf)}:
                     probs.append("carried `used` becomes %s, expected is_occupied[p] || is_shifted[p]" % fmt(u)[:100])
+    # what the chain starts with: the triple displaced from the insert position itself
+    if not probs:
+        scan_t0 = ("call", QF + "::scan", (selfp, ("param", 2, "quotient"), ("param", 3, "remainder"), const(True)))
+        pos0 = ("field", scan_t0, "position")
+        wc, wr = by_field["is_continuation"][1][2], by_field["remainders"][1][2]
+        hb = ii.blocks[h]
+        gd = tb.operand(hb.term.discr, h, len(hb.stmts))
+        from ..guards import atomic_facts
+
+        def or_form(init, first, second):
+            """init == first || second, as the phi {True | second} whose `True` alternative is taken exactly under `first`"""
+            alts = set(map(repr, init[1])) if init[0] == "phi" else {repr(init)}
+            return alts == {repr(const(True)), repr(second)}
+
+        at_start = ("call", "filters::quotientfilter::ScanResult::at_start_of_run", (scan_t0,))
+        at_start_inl = None
+        ic = tb.loop_init(wc[1], h)
+        ok_c = or_form(ic, ("index", ("field", selfp, "is_continuation"), pos0), at_start)
+        if not ok_c:
+            # at_start_of_run may be inlined: phi{False | position == start_of_run}
+            alts = [x for x in (ic[1] if ic[0] == "phi" else (ic,))]
+            sor = ("field", scan_t0, "start_of_run")
+            def is_at_start(x):
+                return x[0] == "op" and x[1] == "Eq" and pos0 in x[2] and any(y != pos0 and any(z == sor for z in subterms_(y)) for y in x[2])
+            ok_c = const(True) in alts and any(is_at_start(x) for x in alts) and all(x in (const(True), const(False)) or is_at_start(x) for x in alts)
+        if not ok_c:
+            probs.append("the displaced element is flagged as continuation with %s; expected is_continuation[position] || at_start_of_run() "
+                         "(when a new smallest remainder takes over the head of a run, the old head becomes a continuation wherever the run sits)" % fmt(ic)[:160])
+        ir = tb.loop_init(wr[1], h)
+        if ir != ("call", "<succinct::IntVector as succinct::IntVec>::get", (("field", selfp, "remainders"), pos0)):
+            probs.append("the chain starts with remainder %s, expected the one displaced from the insert position" % fmt(ir)[:100])
+        iu = tb.loop_init(gd[1], h)
+        if not or_form(iu, ("index", ("field", selfp, "is_occupied"), pos0), ("index", ("field", selfp, "is_shifted"), pos0)):
+            probs.append("the chain starts with used = %s, expected is_occupied[position] || is_shifted[position]" % fmt(iu)[:100])
+        ip = tb.loop_init(pos_lv[1], h)
+        if ip != pos0:
+            probs.append("the chain starts at %s, expected the insert position" % fmt(ip)[:80])
     ctx.check(not probs, "R13-swap-chain", ii.key, ii, "swap chain: read (cont, rem, used) of the next slot, then write the carried triple there, advance one slot, continue while used",
               "; ".join(sorted(set(probs))[:3]))
     # initial placement flags
